@@ -254,7 +254,8 @@ def parent_main(prop: str, tier: str, seed: int, replay: str | None, jobs: int) 
         "coverage": {
             "evaluations": counters.get("evaluations", 0),
             "distinct_nontrivial": n_distinct,
-            "rule": mod["rule"],
+            "rule": mod["rule"] + " | input classes, call sequences and options added after the independent seeding rounds (DESIGN §11) are not all "
+                    "spelled out in this sentence: each of them has its own named counter under `counters`",
             "samples": samples,
             "counters": counters,
             "shards": len(specs),
